@@ -281,20 +281,19 @@ def r2(k: Kit) -> None:
                     dotted(lf.args[0]) == 'self._chroot':
                 second, _ = expr_sources(g, rd, n.id, lf.args[1])
                 for s in second:
-                    if isinstance(s, ast.Subscript) and \
-                            isinstance(s.slice, ast.Slice) and \
-                            isinstance(s.slice.lower, ast.Constant) and \
-                            s.slice.lower.value == 1 and \
-                            s.slice.upper is None:
-                        okj = True
-                    if is_call(s, 'lstrip') or is_call(s, 'removeprefix'):
+                    # normpath() keeps exactly two leading slashes, so
+                    # dropping one character ([1:], removeprefix) is not
+                    # enough: every leading separator has to go
+                    if is_call(s, 'lstrip') and s.args and \
+                            isinstance(s.args[0], ast.Constant) and \
+                            s.args[0].value in (b'/', '/'):
                         okj = True
         rep.check(okj, 'C13.R2', key(fi, 'join under root'),
-                  'result is join(root, <normalised path without its leading '
-                  'separator>)',
-                  'the normalised path is joined onto the root with its '
-                  'leading separator (join discards the root) or not joined '
-                  'onto the root at all', k.loc(fi, n))
+                  'result is join(root, <normalised path>.lstrip(b"/"))',
+                  'the normalised path is joined onto the root without '
+                  'stripping every leading separator (normpath keeps "//"; '
+                  'join then discards the root) or is not joined onto the '
+                  'root at all', k.loc(fi, n))
     rv = k.func('sftp.SFTPServer.reverse_map_path')
     g = k.cfg(rv)
 
@@ -440,41 +439,49 @@ def r3(k: Kit) -> None:
 
 def r4(k: Kit) -> None:
     rep = k.rep
-    rep.rule('C13.R4', 'in SFTPClient._copy a directory-entry name from '
-             'scandir is joined onto the destination only after names '
-             'containing a separator and "."/".." were rejected')
-    fi = k.func('sftp.SFTPClient._copy')
-    g = k.cfg(fi)
-    rd = k.rd(fi)
+    rep.rule('C13.R4', 'in the SFTP client\'s download paths (recursive '
+             '_copy and glob expansion) a directory-entry name from scandir '
+             'is joined onto a path only after names containing a separator '
+             'and "."/".." were rejected')
     n_join = 0
-    for node in g.nodes:
-        for call in g.calls_at(node):
-            if not is_call(call, 'join'):
-                continue
-            if len(call.args) < 2 or dotted(call.args[0]) != 'dstpath':
-                continue
-            n_join += 1
-            var = dotted(call.args[1])
-            if not var:
-                rep.violation('C13.R4', key(fi, 'join dstpath'),
-                              'joined component is not a variable',
-                              k.loc(fi, node))
-                continue
-            kind = _validator_atoms(var)
-            need = {'slash', 'dotdot'}
-            for kd in sorted(need):
-                def val(n: Node, kd=kd) -> Optional[bool]:
-                    return False if kind(n) == kd else None
-                w = g.guarded_by(node.id, val)
-                rep.check(w is None, 'C13.R4',
-                          key(fi, f'join dstpath rejects {kd}'),
-                          f'join dominated by the {kd} test',
-                          f'remote file name `{var}` is joined onto the '
-                          f'destination without rejecting {kd}: a hostile '
-                          'server can write outside the destination',
-                          k.loc(fi, node),
-                          g.describe_path(w) if w else None)
-    rep.floor('C13.R4', 'dstpath joins in _copy', n_join, 1)
+    for qual in ('sftp.SFTPClient._copy', 'sftp.SFTPGlob._match_pattern'):
+        fi = k.func(qual)
+        g = k.cfg(fi)
+        rd = k.rd(fi)
+        for node in g.nodes:
+            for call in g.calls_at(node):
+                if not is_call(call, 'join') or len(call.args) < 2:
+                    continue
+                var = dotted(call.args[1])
+                if not var:
+                    continue
+                # only names that come from a directory listing entry
+                from ..flow import expr_sources
+                leaves, free = expr_sources(g, rd, node.id, call.args[1])
+                from_listing = any(
+                    isinstance(x, ast.Attribute) and x.attr == 'filename'
+                    for lf in leaves for x in walk_shallow(lf))
+                if not from_listing:
+                    continue
+                if qual.endswith('_copy') and \
+                        dotted(call.args[0]) != 'dstpath':
+                    continue
+                n_join += 1
+                kind = _validator_atoms(var)
+                for kd in ('dotdot', 'slash'):
+                    def val(n: Node, kd=kd) -> Optional[bool]:
+                        return False if kind(n) == kd else None
+                    w = g.guarded_by(node.id, val)
+                    rep.check(w is None, 'C13.R4',
+                              key(fi, f'join {norm(call.args[0])} '
+                                  f'rejects {kd}'),
+                              f'join dominated by the {kd} test',
+                              f'remote file name `{var}` is joined onto a '
+                              f'path without rejecting {kd}: a hostile '
+                              'server can make a download write outside the '
+                              'destination', k.loc(fi, node),
+                              g.describe_path(w) if w else None)
+    rep.floor('C13.R4', 'listing-name joins', n_join, 2)
 
 
 def run(idx, rep, tier):
